@@ -102,6 +102,14 @@ INFO = {
  "C17r8-visited-realpath-skips-alias": ("C17", "the walk skips directories whose realpath was already visited", "follow_symlinks on + a directory reachable under two names + two listing orders"),
  "C18r8-filenames-narrowed-with-o": ("C18", "the -o branch rebinds filenames to the *.cmake-filtered list", "a file named exactly 'cmake' -- documented on the pinned code only because of defect D16; with the D16 fix the change has no effect left"),
  "C19r8-stale-rst-removed": ("C19", "cminx_gen_rst globs and removes '*.rst' below the output directory before running cminx (directory inputs)", "an output directory that already holds pages of an earlier call"),
+ "C01r9-documented-definition-after-pending-skipped": ("C01", "enterDocumented_command returns early for a function/macro while a member/test declaration waits for its implementation", "a definition that carries its own doccomment right after cpp_member/ct_add_test...: its doccomment is dropped"),
+ "C02r9-equal-entries-dropped": ("C02", "process_docs skips an entry that compares equal (dataclass ==) to one already processed", "two commands yielding equal entries (same kind, name, doc, arguments), e.g. the same helper in both branches of if()/else()"),
+ "C03r9-strip-pattern-by-raw-spelling": ("C03", "the strip pattern is looked up by the command name as spelled (no lower())", "FUNCTION/Macro in another letter case + a non-empty strip pattern"),
+ "C05r9-input-through-splitlines": ("C05", "Documenter reads the file itself and rebuilds the text from str.splitlines()", "VT, FF, FS/GS/RS, NEL, U+2028/2029 in a comment or an argument: they become line breaks before lexing"),
+ "C09r9-documented-implementation-not-linked": ("C09", "a documented function/macro is no longer taken as the implementation of the pending member (ctx not in consumed)", "cpp_member/cpp_constructor whose implementing definition carries a doccomment: the member loses parameters and macro note"),
+ "C11r9-equal-entries-dropped-at-writing": ("C11", "process_docs skips entries equal to one already written", "two sections (or tests) with the same name, doc and flag, e.g. 'setup' in several tests"),
+ "C13r9-one-page-per-first-dot-stem": ("C13", "filenames de-duplicated by the text before the FIRST dot", "two *.cmake files of one directory sharing the text before their first dot (utils.cmake, utils.strings.cmake)"),
+ "C20r9-header-list-on-the-class": ("C20", "RSTWriter stores the header list on the class and looks the character up when a heading is rebuilt", "two documents with different header lists alive at once + a title change of the earlier one"),
  "C18r2-sort-by-splitext": ("C18", "files sorted by (stem, extension) instead of by name", "a directory with names like Foo.cmake and Foo-x.cmake: stdout page order is not the sorted name order"),
 }
 
@@ -125,7 +133,7 @@ for name, (prop, change, needs) in INFO.items():
     d = os.path.join(R, "seeded", name)
     if not os.path.isdir(d):
         continue
-    r2 = "r2" if "r2-" in name else ("r3" if "r3-" in name else ("r4" if "r4-" in name else ("r5" if "r5-" in name else ("r6" if "r6-" in name else ("r7" if "r7-" in name else ("r8" if "r8-" in name else ""))))))
+    r2 = "r2" if "r2-" in name else ("r3" if "r3-" in name else ("r4" if "r4-" in name else ("r5" if "r5-" in name else ("r6" if "r6-" in name else ("r7" if "r7-" in name else ("r8" if "r8-" in name else ("r9" if "r9-" in name else "")))))))
     after = parse(os.path.join(R, ".logs", "seed%s_%s.log" % (r2, prop)))
     before = parse(os.path.join(R, ".logs", "seed%sbefore_%s.log" % (r2, prop)))
     meta = {"breaks_property": prop, "change": change, "needs_to_manifest": needs,
